@@ -1355,6 +1355,31 @@ fn main() {
     );
     drain_infra(&mut ck);
 
+    // 1c. capacities whose checkpoint file is larger than one read call returns (2 MiB is what
+    //     tokio hands back per read; 28 + 20 x capacity bytes)
+    let k1 = known.clone();
+    ck.run(
+        Section::enumerate(
+            "lru-large-capacity",
+            "capacity 104,856 / 104,857 / 104,858 / 250,000 (checkpoint files around and above 2 MiB): touches, reload, touches, restart, run_cycle on a fresh manager".to_string(),
+            move || {
+                let mut v = Vec::new();
+                for cap in [104_856u32, 104_857, 104_858, 250_000] {
+                    for tail in [vec![Op::Reload], vec![Op::Checkpoint, Op::Restart], vec![Op::RunCycle { fresh: true, limit: 0, avg: 100, keep_older: false }], vec![Op::Shutdown { fail: false }, Op::Touch(3), Op::Restart]] {
+                        let mut ops = vec![Op::Touch(0), Op::Touch(1), Op::Touch(2), Op::Touch(0)];
+                        ops.extend(tail);
+                        ops.push(Op::Touch(1));
+                        v.push(Case { cap, pool: 4, zero_key: false, ops, start_gen: None });
+                    }
+                }
+                Box::new(v.into_iter())
+            },
+            move |c: &Case| check("lru-large-capacity", c, &k1, replay),
+        )
+        .shards(8),
+    );
+    drain_infra(&mut ck);
+
     // 2. random long histories
     let k2 = known.clone();
     ck.run(
